@@ -76,39 +76,39 @@ package agent
 //@   ensures[C17] slot < -n ==> pos(this) == ite(n == 0, 0, 1)
 
 //@ func (*iteratorClass_).MakeFromArray
-//@   props C17 C18
+//@   props C17 C18 C19
 //@   implements IteratorClassLike.MakeFromArray
 //@   ensures[C17] inv(iterator_, result)
 
 //@ func (*iterator_).GetSize
-//@   props C17
+//@   props C17 C19
 //@   implements IteratorLike.GetSize
 //@ func (*iterator_).GetSlot
-//@   props C17
+//@   props C17 C19
 //@   implements IteratorLike.GetSlot
 //@ func (*iterator_).IsEmpty
-//@   props C17
+//@   props C17 C19
 //@   implements IteratorLike.IsEmpty
 //@ func (*iterator_).HasNext
-//@   props C17
+//@   props C17 C19
 //@   implements IteratorLike.HasNext
 //@ func (*iterator_).HasPrevious
-//@   props C17
+//@   props C17 C19
 //@   implements IteratorLike.HasPrevious
 //@ func (*iterator_).GetNext
-//@   props C17
+//@   props C17 C19
 //@   implements IteratorLike.GetNext
 //@ func (*iterator_).GetPrevious
-//@   props C17
+//@   props C17 C19
 //@   implements IteratorLike.GetPrevious
 //@ func (*iterator_).ToStart
-//@   props C17
+//@   props C17 C19
 //@   implements IteratorLike.ToStart
 //@ func (*iterator_).ToEnd
-//@   props C17
+//@   props C17 C19
 //@   implements IteratorLike.ToEnd
 //@ func (*iterator_).ToSlot
-//@   props C17
+//@   props C17 C19
 //@   implements IteratorLike.ToSlot
 
 // ---------------------------------------------------------------- collator as seen by its clients
@@ -117,13 +117,17 @@ package agent
 //@ iface CollatorClassLike.Make
 //@   nopanic
 //@   ensures fresh(result) && result != nil
+// cstate(c): the mutable state of a collator (its traversal depth counter): written, and restored, by every call
+//@ model cstate Int
 //@ iface CollatorLike.CompareValues
 //@   trusted
 //@   nopanic
+//@   modifies cstate(this)
 //@   ensures result <==> ceq(first, second)
 //@ iface CollatorLike.RankValues
 //@   trusted
 //@   nopanic
+//@   modifies cstate(this)
 //@   ensures result == rank(this, first, second)
 
 // ---------------------------------------------------------------- sorter (C09)
@@ -146,13 +150,15 @@ package agent
 //@ define rpre(r) := rankdet(r) && (forall a U :: rank(r, a, a) == 1) && (forall a, b U :: rank(r, a, b) == 2 - rank(r, b, a)) && (forall a, b, d U :: rank(r, a, b) <= 1 && rank(r, b, d) <= 1 ==> rank(r, a, d) <= 1)
 //@ define ordered(r, s, lo, hi) := forall i, j :: lo <= i && i < j && j < hi ==> rank(r, s[i], s[j]) <= 1
 
+// a ranking function that is a method value of a collator uses that collator's state (boundrecv(f): its receiver)
 //@ iface RankingFunction.call
 //@   trusted
 //@   nopanic
+//@   modifies cstate(boundrecv(this))
 //@   ensures rankdet(this) ==> result == rank(this, first, second)
 
 //@ func (*sorter_).ReverseValues
-//@   props C09
+//@   props C09 C19
 //@   nopanic
 //@   let n := len(values)
 //@   let s := view(values)
@@ -166,13 +172,16 @@ package agent
 //@     invariant forall j :: (j < off(values) || j >= off(values) + n) ==> rawat(values, j) == old(rawat(values, j))
 //@     decreases half - index
 
+// rkr(s): the ranking function a sorter uses
+//@ model rkr U
 //@ type *sorter_
+//@   modelfield rkr this.ranker_
 //@   invariant this.ranker_ != nil
 
 //@ define outside(s, j) := j < off(s) || j >= off(s) + len(s)
 
 //@ func (*sorter_).mergeArrays
-//@   props C09
+//@   props C09 C19
 //@   uses cnt_extend
 //@   nopanic
 //@   let L := view(left)
@@ -181,14 +190,14 @@ package agent
 //@   let nr := len(right)
 //@   let rk := this.ranker_
 //@   requires len(merged) == len(left) + len(right) && arr(merged) != arr(left) && arr(merged) != arr(right)
-//@   modifies elems(merged)
+//@   modifies elems(merged), cstate(boundrecv(this.ranker_))
 //@   ensures[C09] forall j :: outside(merged, j) ==> rawat(merged, j) == old(rawat(merged, j))
 //@   ensures[C09] forall x U :: cnt(view(merged), 0, len(merged), x) == cnt(L, 0, nl, x) + cnt(R, 0, nr, x)
 //@   ensures[C09] rpre(rk) && ordered(rk, L, 0, nl) && ordered(rk, R, 0, nr) ==> ordered(rk, view(merged), 0, len(merged))
 //@   loop 1:
 //@     invariant 0 <= leftIndex && 0 <= rightIndex && 0 <= mergedIndex && mergedIndex <= mergedLength + 1
 //@     invariant mergedIndex <= mergedLength ==> leftIndex <= nl && rightIndex <= nr && mergedIndex == leftIndex + rightIndex
-//@     invariant leftLength == nl && rightLength == nr && mergedLength == nl + nr && view(left) == L && view(right) == R
+//@     invariant leftLength == nl && rightLength == nr && mergedLength == nl + nr && view(left) == L && view(right) == R && unchanged(cstate, boundrecv(this.ranker_))
 //@     invariant forall j :: outside(merged, j) ==> rawat(merged, j) == old(rawat(merged, j))
 //@     invariant mergedIndex <= mergedLength ==> (forall x U :: cnt(view(merged), 0, mergedIndex, x) == cnt(L, 0, leftIndex, x) + cnt(R, 0, rightIndex, x))
 //@     invariant mergedIndex > mergedLength ==> (forall x U :: cnt(view(merged), 0, mergedLength, x) == cnt(L, 0, nl, x) + cnt(R, 0, nr, x))
@@ -217,13 +226,13 @@ package agent
 //@ define runsordered(r, s, n, w) := forall i, j :: { s[i], s[j] } 0 <= i && i <= j && j < n && samerun(i, j, w) ==> rank(r, s[i], s[j]) <= 1
 
 //@ func (*sorter_).sortValues
-//@   props C09
+//@   props C09 C19
 //@   uses cnt_agree, cnt_split, cnt_extend, align_zero, align_step, rdiv_mono, rdiv_before, rdiv_within, rdiv_first, rdiv_one
 //@   nopanic
 //@   let N := len(values)
 //@   let V0 := view(values)
 //@   let rk := this.ranker_
-//@   modifies elems(values)
+//@   modifies elems(values), cstate(boundrecv(this.ranker_))
 //@   ensures[C09] forall j :: outside(values, j) ==> rawat(values, j) == old(rawat(values, j))
 //@   ensures[C09] forall x U :: cnt(view(values), 0, N, x) == cnt(V0, 0, N, x)
 //@   ensures[C09] rpre(rk) ==> ordered(rk, view(values), 0, N)
@@ -276,6 +285,7 @@ package agent
 //@ lemma[C09] cnt_swap uses cnt_swap_lt, cnt_agree, cnt_nonneg: forall s Seq, t Seq, n Int, a Int, b Int, x U :: { cnt(t, 0, n, x), cnt(s, 0, n, x), t[a], t[b] } 0 <= a && a <= b && b < n && t[a] == s[b] && t[b] == s[a] && (forall i :: 0 <= i && i < n && i != a && i != b ==> t[i] == s[i]) ==> cnt(t, 0, n, x) == cnt(s, 0, n, x)
 
 //@ func (*sorter_).randomizeIndex
+//@   props C19
 //@   noverify
 //@   trusted
 //@   nopanic
@@ -286,7 +296,7 @@ package agent
 //@   nopanic
 //@   let N := len(values)
 //@   let V0 := view(values)
-//@   modifies elems(values)
+//@   modifies elems(values), cstate(boundrecv(rkr(this)))
 //@   ensures[C09] forall j :: outside(values, j) ==> rawat(values, j) == old(rawat(values, j))
 //@   ensures[C09] forall x U :: cnt(view(values), 0, N, x) == cnt(V0, 0, N, x)
 //@ iface SorterLike.ReverseValues
@@ -305,10 +315,10 @@ package agent
 //@   ensures[C09] forall x U :: cnt(view(values), 0, N, x) == cnt(V0, 0, N, x)
 
 //@ func (*sorter_).SortValues
-//@   props C09
+//@   props C09 C19
 //@   implements SorterLike.SortValues
 //@ func (*sorter_).ShuffleValues
-//@   props C09
+//@   props C09 C19
 //@   implements SorterLike.ShuffleValues
 //@   uses cnt_swap
 //@   loop 1:
@@ -317,12 +327,21 @@ package agent
 //@     invariant forall x U :: cnt(view(values), 0, N, x) == cnt(V0, 0, N, x)
 //@     decreases size - i
 
+// a sorter made without a ranker owns the collator behind its default ranker (C19: sorters are independent)
 //@ iface SorterClassLike.Make
 //@   nopanic
 //@   ensures fresh(result) && result != nil
+//@   ensures[C19] fresh(boundrecv(rkr(result)))
 //@ iface SorterClassLike.MakeWithRanker
 //@   nopanic
-//@   ensures fresh(result) && result != nil
+//@   ensures fresh(result) && result != nil && rkr(result) == ranker
+//@ func (*sorterClass_).Make
+//@   props C19
+//@   implements SorterClassLike.Make
+//@ func (*sorterClass_).MakeWithRanker
+//@   props C19
+//@   nilok
+//@   implements SorterClassLike.MakeWithRanker
 
 // reversal preserves counts (induction from the left end)
 //@ lemma[C09,C03] cnt_cons uses nothing measure ite(hi > lo, hi - lo, 0): forall s Seq, lo Int, hi Int, x U :: { cnt(s, lo, hi, x) } lo < hi ==> cnt(s, lo, hi, x) == ite(s[lo] == x, 1, 0) + cnt(s, lo + 1, hi, x)
@@ -346,42 +365,42 @@ package agent
 //@ define crank(a, b) := ite(cgoeq(a, b), 1, ite(flt(cabs(a), cabs(b)), 0, ite(fgt(cabs(a), cabs(b)), 2, ite(flt(cphase(a), cphase(b)), 0, ite(fgt(cphase(a), cphase(b)), 2, 1)))))
 
 //@ func (*collator_).rankBooleans
-//@   props C07 C08
+//@   props C07 C08 C19
 //@   nopanic
 //@   noinv
 //@   ensures[C07] result == brank(first, second)
 //@ func (*collator_).rankBytes
-//@   props C07 C08
+//@   props C07 C08 C19
 //@   nopanic
 //@   noinv
 //@   ensures[C07] result == irank(first, second)
 //@ func (*collator_).rankRunes
-//@   props C07 C08
+//@   props C07 C08 C19
 //@   nopanic
 //@   noinv
 //@   ensures[C07] result == irank(first, second)
 //@ func (*collator_).rankSigned
-//@   props C07 C08
+//@   props C07 C08 C19
 //@   nopanic
 //@   noinv
 //@   ensures[C07] result == irank(first, second)
 //@ func (*collator_).rankUnsigned
-//@   props C07 C08
+//@   props C07 C08 C19
 //@   nopanic
 //@   noinv
 //@   ensures[C07] result == irank(first, second)
 //@ func (*collator_).rankFloats
-//@   props C07 C08
+//@   props C07 C08 C19
 //@   nopanic
 //@   noinv
 //@   ensures[C07] result == frank(first, second)
 //@ func (*collator_).rankComplex
-//@   props C07 C08
+//@   props C07 C08 C19
 //@   nopanic
 //@   noinv
 //@   ensures[C07] result == crank(first, second)
 //@ func (*collator_).rankStrings
-//@   props C07 C08
+//@   props C07 C08 C19
 //@   nopanic
 //@   noinv
 //@   ensures[C07] result == srank(first, second)
@@ -456,8 +475,8 @@ package agent
 //@ define collkind(k) := k == 17 || k == 23 || k == 21 || k == 20 || k == 22
 //@ define compat(a, b) := gtype(rtype(a)) == gtype(rtype(b)) || gtype(rtype(a)) == "any" || gtype(rtype(b)) == "any"
 //@ func (*collator_).compareValues
-//@   props C08
-//@   modifies this.depth_
+//@   props C08 C19
+//@   modifies this.depth_, cstate(this)
 //@   decreases this.maximum_ - this.depth_, 3, ptrh(first)
 //@   ensures[C08] this.depth_ == old(this.depth_)
 //@   defines result <==> cv(this, first, second)
@@ -467,8 +486,8 @@ package agent
 //@   ensures[C08] rvalid(first) && rvalid(second) && compat(first, second) && collkind(rkind(first)) && rnil(first) ==> (result <==> rnil(second))
 //@   ensures[C08] rvalid(first) && rvalid(second) && compat(first, second) && collkind(rkind(first)) && !rnil(first) && rnil(second) ==> !result
 //@ func (*collator_).compareArrays
-//@   props C08
-//@   modifies this.depth_
+//@   props C08 C19
+//@   modifies this.depth_, cstate(this)
 //@   decreases this.maximum_ - this.depth_, 1
 //@   ensures[C08] this.depth_ == old(this.depth_)
 //@   ensures[C08] result <==> rlen(first) == rlen(second) && (forall j :: 0 <= j && j < rlen(first) ==> cv(this, rindex(first, j), rindex(second, j)))
@@ -477,8 +496,8 @@ package agent
 //@     invariant forall j :: 0 <= j && j < i ==> cv(this, rindex(first, j), rindex(second, j))
 //@     decreases size - i
 //@ func (*collator_).compareMaps
-//@   props C08
-//@   modifies this.depth_
+//@   props C08 C19
+//@   modifies this.depth_, cstate(this)
 //@   decreases this.maximum_ - this.depth_, 1
 //@   ensures[C08] this.depth_ == old(this.depth_)
 //@   ensures[C08] rlen(first) != rlen(second) ==> !result
@@ -487,28 +506,29 @@ package agent
 //@     invariant this.depth_ == old(this.depth_) && this.depth_ < this.maximum_ && remaining(iterator) >= 0 && remaining(iterator) <= rlen(first) && iterator != nil
 //@     decreases remaining(iterator)
 //@ func (*collator_).compareSequences
-//@   props C08
-//@   modifies this.depth_
+//@   props C08 C19
+//@   modifies this.depth_, cstate(this)
 //@   decreases this.maximum_ - this.depth_, 2
 //@   ensures[C08] this.depth_ == old(this.depth_)
 //@ func (*collator_).compareInterfaces
-//@   props C08
-//@   modifies this.depth_
+//@   props C08 C19
+//@   modifies this.depth_, cstate(this)
 //@   decreases this.maximum_ - this.depth_, 2
 //@   ensures[C08] this.depth_ == old(this.depth_)
 //@   loop 1:
 //@     invariant 0 <= index && this.depth_ == old(this.depth_) && this.depth_ < this.maximum_
 //@     decreases count - index
 //@ func (*collator_).compareIntrinsics
-//@   props C08
+//@   props C08 C19
 //@   ensures[C08] this.depth_ == old(this.depth_)
 //@ func (*collator_).CompareValues
-//@   props C08
-//@   modifies this.depth_
+//@   props C08 C19
+//@   modifies this.depth_, cstate(this)
 //@   ensures[C08] this.depth_ == old(this.depth_)
 //@   xensures[C08] this.depth_ == old(this.depth_)
 //@ declare gtype(U) Str
 //@ func (*collator_).getType
+//@   props C19
 //@   nilok
 //@   noverify
 //@   trusted
@@ -516,8 +536,8 @@ package agent
 //@   defines result == gtype(type_)
 
 //@ func (*collator_).rankValues
-//@   props C08 C07
-//@   modifies this.depth_
+//@   props C08 C07 C19
+//@   modifies this.depth_, cstate(this)
 //@   decreases this.maximum_ - this.depth_, 3, ptrh(first)
 //@   ensures[C08] this.depth_ == old(this.depth_)
 //@   defines result == rv(this, first, second)
@@ -532,9 +552,9 @@ package agent
 //@ define er(c, a, b, j) := rv(c, rindex(a, j), rindex(b, j))
 //@ define lexpost(c, a, b, r) := ((forall j :: 0 <= j && j < rlen(a) ==> er(c, a, b, j) == 1) ==> r == ite(rlen(a) < rlen(b), 0, 1)) && (forall k :: 0 <= k && k < rlen(a) && er(c, a, b, k) != 1 && (forall j :: 0 <= j && j < k ==> er(c, a, b, j) == 1) ==> r == er(c, a, b, k))
 //@ func (*collator_).rankArrays
-//@   props C08 C07
+//@   props C08 C07 C19
 //@   ensures[C07] result <= 2
-//@   modifies this.depth_
+//@   modifies this.depth_, cstate(this)
 //@   decreases this.maximum_ - this.depth_, 1, ite(rlen(first) > rlen(second), 1, 0)
 //@   ensures[C08] this.depth_ == old(this.depth_)
 //@   ensures[C07] rlen(first) <= rlen(second) ==> lexpost(this, first, second, result)
@@ -544,35 +564,35 @@ package agent
 //@     invariant forall j :: 0 <= j && j < i ==> er(this, first, second, j) == 1
 //@     decreases firstSize - i
 //@ func (*collator_).rankMaps
-//@   props C08 C07
+//@   props C08 C07 C19
 //@   ensures[C07] result <= 2
 //@   ensures[C07] rlen(first) == 0 ==> result == ite(rlen(second) > 0, 0, 1)
 //@   ensures[C07] rlen(second) == 0 && rlen(first) > 0 ==> result == 2
-//@   modifies this.depth_
+//@   modifies this.depth_, cstate(this)
 //@   decreases this.maximum_ - this.depth_, 1, ite(rlen(first) > rlen(second), 1, 0)
 //@   ensures[C08] this.depth_ == old(this.depth_)
 //@   loop 1:
 //@     invariant 0 <= i && this.depth_ == old(this.depth_) && this.depth_ < this.maximum_
 //@     decreases firstSize - i
 //@ func (*collator_).rankSequences
-//@   props C08 C07
+//@   props C08 C07 C19
 //@   ensures[C07] result <= 2
-//@   modifies this.depth_
+//@   modifies this.depth_, cstate(this)
 //@   decreases this.maximum_ - this.depth_, 2
 //@   ensures[C08] this.depth_ == old(this.depth_)
 //@ func (*collator_).rankInterfaces
-//@   props C08 C07
+//@   props C08 C07 C19
 //@   ensures[C07] result <= 2
-//@   modifies this.depth_
+//@   modifies this.depth_, cstate(this)
 //@   decreases this.maximum_ - this.depth_, 2
 //@   ensures[C08] this.depth_ == old(this.depth_)
 //@   loop 1:
 //@     invariant 0 <= index && this.depth_ == old(this.depth_) && this.depth_ < this.maximum_
 //@     decreases count - index
 //@ func (*collator_).rankStructures
-//@   props C08 C07
+//@   props C08 C07 C19
 //@   ensures[C07] result <= 2
-//@   modifies this.depth_
+//@   modifies this.depth_, cstate(this)
 //@   decreases this.maximum_ - this.depth_, 2
 //@   ensures[C08] this.depth_ == old(this.depth_)
 //@   loop 1:
@@ -605,7 +625,7 @@ package agent
 // each primitive kind is ranked by its natural order (reflect kinds: Bool 1, Int 2, Int8 3, Int16 4, Int32 5, Int64 6,
 // Uint 7, Uint8 8, Uint16 9, Uint32 10, Uint64 11, Float32 13, Float64 14, Complex64 15, Complex128 16, String 24)
 //@ func (*collator_).rankIntrinsics
-//@   props C08 C07
+//@   props C08 C07 C19
 //@   ensures[C07] result <= 2
 //@   ensures[C07] rkind(first) == 1 ==> result == brank(rbool(first), rbool(second))
 //@   ensures[C07] rkind(first) == 8 ==> result == irank(ruint(first) % 256, ruint(second) % 256)
@@ -618,8 +638,8 @@ package agent
 //@   xensures[C07] !((1 <= rkind(first) && rkind(first) <= 11) || (13 <= rkind(first) && rkind(first) <= 16) || rkind(first) == 24)
 //@   ensures[C08] this.depth_ == old(this.depth_)
 //@ func (*collator_).RankValues
-//@   props C08 C07
-//@   modifies this.depth_
+//@   props C08 C07 C19
+//@   modifies this.depth_, cstate(this)
 //@   ensures[C08] this.depth_ == old(this.depth_)
 //@   xensures[C08] this.depth_ == old(this.depth_)
 
@@ -642,11 +662,11 @@ package agent
 //@   nilok
 //@   ensures rvalid(result) <==> $1 != nil
 //@ func (*inspector_).IsDefined
-//@   props C06
+//@   props C06 C19
 //@   nilok
 //@   implements InspectorLike.IsDefined
 //@ func (*inspector_).isDefined
-//@   props C06
+//@   props C06 C19
 //@   nilok
 //@   nopanic
 //@   ensures result ==> value != nil
